@@ -295,6 +295,22 @@ def case_stress_and_views(kind, fam, rep):
         Em = E.mean(0)
         strain_voigt = np.array([Em[:, i, j] * (1 if i == j else 2) for i, j in VOIGT]).T
         princ = (np.log(w) / 2).mean(0)  # c, ascending
+        # point data of the same named quantity (project=...): component [p, i, j] of the projected tensor
+        if kind == "3d" and not ni and field.region.quadrature.npoints >= mesh.cells.shape[1]:
+            vp = field.view(project=fem.topoints)
+            gotp = np.asarray(vp.mesh.point_data["Deformation Gradient"]).reshape(mesh.npoints, 3, 3)
+            refp = fem.topoints(F, field.region).reshape(mesh.npoints, 3, 3)
+            run.compare("post.view", "view=field[project] key=Deformation Gradient clause=point-values", maxabs(gotp - refp) / maxabs(refp), 1e-13,
+                        "view point data 'Deformation Gradient'[p, i, j] (project=topoints) is not the projected F_ij", unit="view:Deformation Gradient:points",
+                        config=("view-project", kind))
+            # a single cell (the layout handed to the plotting backend must not depend on the number of cells)
+            m1 = fem.Mesh(mesh.points[mesh.cells[0]], np.arange(mesh.cells.shape[1]).reshape(1, -1), mesh.cell_type)
+            f1 = fem.FieldContainer([fem.Field(gen.make_region(fam, m1), dim=3, values=field[0].values[mesh.cells[0]])])
+            F1 = np.moveaxis(f1.extract()[0].mean(-2), -1, 0)
+            got1 = np.asarray(f1.view().mesh.cell_data["Deformation Gradient"]).reshape(1, 3, 3)
+            run.compare("post.view", "view=field[single cell] key=Deformation Gradient clause=cell-mean", maxabs(got1 - F1) / maxabs(F1), 1e-13,
+                        "view cell data 'Deformation Gradient' of a one-cell mesh is not the quadrature mean of F_ij", unit="view:Deformation Gradient:single-cell",
+                        config=("view-single-cell", kind))
         vf = field.view()
         cd = vf.mesh.cell_data
         got = np.asarray(cd["Deformation Gradient"]).reshape(mesh.ncells, 3, 3)
@@ -399,7 +415,7 @@ SPEC = {
                        "project:reproduction:tetraMINI", "extrapolate:quad", "extrapolate:hexahedron", "topoints:average", "topoints:mean",
                        "project:length-scale:0.004", "project:length-scale:250", "flags:extrapolate:average=False", "flags:extrapolate:mean=True", "flags:extrapolate:mean=True,average=False", "flags:project:average=False",
                        "flags:project:dV", "flags:project:mean=True", "flags:project:simplex", "flags:topoints:average=False", "flags:topoints:mean=True",
-                       "flags:topoints:single-point", "stress:no-field-argument", "view:Stress[first Piola-Kirchhoff]",
+                       "flags:topoints:single-point", "stress:no-field-argument", "view:Stress[first Piola-Kirchhoff]", "view:Deformation Gradient:points", "view:Deformation Gradient:single-cell",
                        "stress:kirchhoff", "stress:cauchy", "stress:cauchy:after-state-change", "stress:kirchhoff:after-state-change", "view:Deformation Gradient", "view:Logarithmic Strain",
                        "view:Principal Values of Logarithmic Strain", "view:Displacement", "view:Cauchy Stress", "view:Kirchhoff Stress",
                        "view:Principal Values of Cauchy Stress", "view:Equivalent of Cauchy Stress", "job:Deformation Gradient",
